@@ -156,6 +156,9 @@ fn alphabet(w: &StdWorld) -> Vec<Op> {
     a.push(Op::Inc { pos: 1, liq: 12_345, v2: false });
     a.push(Op::Dec { pos: 2, part: Part::All, v2: true }); // de-initialises bound 5696 and (if P0/P1 are empty) 128
     a.push(Op::Inc { pos: 2, liq: 999_999_999, v2: false });
+    // reposition_liquidity_v2 keeps the owed fees and restarts the checkpoints on the new range
+    a.push(Op::Repos { pos: 0, lower: -64, upper: 192, liq: stdworlds::BIG / 2 });
+    a.push(Op::Repos { pos: 0, lower: -128, upper: 128, liq: stdworlds::BIG });
     a
 }
 
@@ -319,7 +322,7 @@ impl<'a> Model for M<'a> {
                 }
                 self.credit_swap(&s.l, &mut g, &st.trace, *a_to_b)?;
             }
-            Op::Inc { pos, .. } | Op::Dec { pos, .. } | Op::Update { pos } => {
+            Op::Inc { pos, .. } | Op::Dec { pos, .. } | Op::Update { pos } | Op::Repos { pos, .. } => {
                 // the position was updated: one more floor in its credit
                 let i = *pos as usize;
                 for side in 0..2 {
@@ -353,7 +356,8 @@ impl<'a> Model for M<'a> {
         let mut owed: Vec<Option<[u64; 2]>> = vec![None; self.w.positions.len()];
         for (i, p) in self.w.positions.iter().enumerate() {
             if p.state(&c).liquidity > 0 {
-                let o = svm::process(&mut c, &world::ix_update_fees_and_rewards(p));
+                let pnow = p.at(&c);
+                let o = svm::process(&mut c, &world::ix_update_fees_and_rewards(&pnow));
                 if !o.ok() {
                     return Err(format!("update_fees_and_rewards failed on a funded position: {}", o.short()));
                 }
